@@ -5,7 +5,8 @@
    MISMATCH kinds: model (impl vs model of the code), spec (impl vs specification outside the
    known classes = a property violation).  Disagreements with the specification INSIDE a known
    class (Pos.Spec.KnownClass_pos / KnownClass_span) are counted (#RUNNER known_class) and, with
-   argument `showknown`, printed as MISMATCH known. *)
+   argument `showknown`, printed as MISMATCH known.  Argument `fx=1` selects the model and the known
+   classes of the patched Error::new_from_span (the driver probes the tree). *)
 open Pos_model
 open Runner_common
 type string = String.t   (* the extracted module defines its own string/char/length *)
@@ -60,6 +61,8 @@ let esc (s : string) : string =
   Buffer.contents b
 
 let msg : str = to_str "E"
+(* model flag: true = tree with fixes/C10-1-continued-line-visualize.patch (argument fx=1) *)
+let fx : bool = Array.exists (fun a -> a = "fx=1") Sys.argv
 let lc (l, c) = Printf.sprintf "%d,%d" (n2i l) (n2i c)
 let rng (a, b) = Printf.sprintf "%d-%d" (n2i a) (n2i b)
 let res_str f = function Ok x -> f x | Panic -> "PANIC" | Diverge -> "DIVERGE"
@@ -110,7 +113,7 @@ let model_q (s : str) (a : nat) (bb : nat) : string =
     Buffer.add_string b ";get=";
     for x = 0 to d + 1 do for y = 0 to d + 1 do
       Buffer.add_char b (match span_get s sp (nat_of_int x) (nat_of_int y) with Ok o -> opt_bit o | _ -> 'P') done done end;
-  (match new_from_span s sp msg with
+  (match new_from_span fx s sp msg with
    | Ok e ->
      Buffer.add_string b (err_fields e);
      Buffer.add_string b (";err=" ^ res_str (fun o -> esc (of_str o)) (format e))
@@ -176,7 +179,7 @@ let spec_q (s : str) (a : nat) (bb : nat) (obs : string) : verdict =
   if !bad <> [] then Bad (String.concat ";" (List.rev !bad)) else
   let out = to_str (unesc (field fs "err")) in
   if span_shows p m q msg out then Good
-  else if knownClass_span p m q then Known "Kspan"
+  else if knownClass_span fx p m q then Known "Kspan"
   else Bad "err does not show line number / line text / marker column / continued line (Pos.Spec.span_shows)"
 
 let spec_m a b c d (obs : string) : verdict =
@@ -185,7 +188,7 @@ let spec_m a b c d (obs : string) : verdict =
   if e = obs then Good else Bad e
 
 let () =
-  let showknown = Array.length Sys.argv > 1 && Sys.argv.(1) = "showknown" in
+  let showknown = Array.exists (fun a -> a = "showknown") Sys.argv in
   let n = ref 0 and known = ref 0 and known_shown = ref 0 in
   read_lines (fun line ->
     if String.length line > 0 && line.[0] = '#' then print_endline line else
